@@ -762,6 +762,15 @@ def flush_lean(ctx, batch):
         # the tie is to ValidDocR (premise of validated_no_internal_error_rootless): `validate_ast` does not check that the
         # operation's kind has a root type in the schema, so ValidDoc's root clause is NOT implied by acceptance
         ctx.stat("ops-rooted:%s" % a.get("ops_rooted"))
+        # schema hypotheses of accepted_cannot_go_wrong_checked (SchemaOk, SchemaWf, RootsAreObjects, TypesWf), evaluated by
+        # the driver on the schema of this request: every schema of this check is a valid one
+        # (`schema_checks`: on the description with the built-in scalars listed, the form the bridge theorems speak about;
+        #  `schema_checks_exec`: the executor-side checks on the description the driver executes)
+        ctx.stat("schema-checks:%s/%s" % (a.get("schema_checks"), a.get("schema_checks_exec")))
+        if a.get("schema_checks") is False or a.get("schema_checks_exec") is False:
+            ctx.fail("corr:valid-schema-fails-schemaChecksB", "the computable schema hypotheses of the soundness theorem "
+                     "(Spec/SchemaChecks.lean) are false on a schema that build_schema + validate accept",
+                     c.replay_data({"label": label}), kind="correspondence")
         if (a.get("validdoc_r") if "validdoc_r" in a else a.get("validdoc")) is False:
             ctx.fail("corr:accepted-but-not-ValidDoc:%s" % (a.get("validdoc_why") or "?"),
                      "validate_ast accepted a document outside the declarative ValidDoc predicate the theorems assume",
